@@ -333,7 +333,7 @@ pub fn run_case(case: &Case, rng: &mut Rng8, rep: &mut Report, do_walk: bool) {
 
 pub fn run(cfg: &Cfg) -> Report {
     let shards = 32;
-    let per = cfg.n(10, 200);
+    let per = cfg.n(80, 1500);
     let reports = par_map(shards, |sh| {
         let mut rng = rng_for(cfg.seed, "C14", sh as u64);
         let mut rep = Report::new();
